@@ -523,7 +523,38 @@ func (e *engine) sect(g *hnode, mode int, o *Out) string {
 	ev := g.w.take()
 	e.foldEvents(g, ev, o)
 	e.oracleViews(g, o)
+	e.oracleOwn(g, o)
 	return Hx(g.id) + " st=" + e.showState(g) + " ev=[" + strings.Join(canonEvents(ev, mode), ",") + "]"
+}
+
+// oracleOwn: C17/C02 - after EVERY operation (exchanges, joins and leaves included, not only local
+// writes) the node's own live keys are exactly the reference last-write-wins map: nothing a peer sends,
+// and nothing the node decodes into, may leak into its own published state (seed C17d: a join reply
+// decoded over a delta that aliased the node's own cached entries).
+func (e *engine) oracleOwn(g *hnode, o *Out) {
+	own := g.st.LocalNode()
+	live := map[string]string{}
+	for _, en := range own.Entries {
+		if !en.Deleted && !en.Internal {
+			live[en.Key] = en.Value
+		}
+	}
+	o.Count("oracle:C17:own-vs-reference")
+	for k, v := range g.ref {
+		if k == pg.VLeftKey || k == pg.VCompactKey {
+			continue
+		}
+		if lv, ok := live[k]; !ok || lv != v {
+			o.Fail("C17", "own-state-differs-from-reference", fmt.Sprintf("node=%s key=%s reference=%s own=%s present=%v", Hx(g.id), Hx(k), Hx(v), Hx(lv), ok))
+			return
+		}
+	}
+	for k := range live {
+		if _, ok := g.ref[k]; !ok && k != pg.VLeftKey && k != pg.VCompactKey {
+			o.Fail("C17", "own-state-differs-from-reference", fmt.Sprintf("node=%s key=%s is live in the own state but was never written (or was deleted)", Hx(g.id), Hx(k)))
+			return
+		}
+	}
 }
 
 func (e *engine) showSent(sent []string) string { return " out=[" + strings.Join(sent, " ") + "]" }
